@@ -16,6 +16,11 @@ objects in exactly this form.
   hstrp.parse <hex>  /  hstrp.mk <version> <type> <sn> <opts> <tuple | NONE>
   hdap.cksum <hex>, hrnp.cksum <hex>, opts.parse <hex>, type.byte <b>
   tmp.text b <hex> | tmp.text s <code points, comma separated | ->   -> the octets the TMP constructor stores | ERR UnicodeEncodeError
+  arg.gps <valid> <time> <date> <north> <lat> <east> <lon> <speed> <dir>   -> <record hex> <len> | ERR <Class>
+      the GPSData constructor arguments in the form they are handed over:
+      time  t:<h>:<m>:<s>:<us>:<utc offset in minutes | N>:<fold>  |  b:<hex>
+      date  d:<d>:<m>:<yy>  |  dt:<d>:<m>:<yy>:<h>:<mi>:<s>:<us>:<offset | N>  |  b:<hex>
+      lat / lon  f:<value in 10^-4 units>  |  i:<int>  |  b:<hex>      speed  f:<ip.frac> | b:<hex>      dir  i:<n> | b:<hex>
 -/
 
 namespace Dmr.Driver.Hytera
@@ -119,6 +124,51 @@ def rdGps : List String → Option Gps
   | [v, t, d, n, la, e, lo, sp, di] => do
     pure ⟨← rdBool v, ← rdOpt rdTriple t, ← rdOpt rdTriple d, ← rdBool n, ← rdNat la, ← rdBool e,
       ← rdNat lo, ← rdDec sp, ← rdNat di⟩
+  | _ => none
+
+/-! the forms of the GPSData constructor arguments -/
+
+def rdInt (s : String) : Option Int :=
+  if s.startsWith "-" then (fun n : Nat => -(n : Int)) <$> (s.drop 1).toNat? else (fun n : Nat => (n : Int)) <$> s.toNat?
+
+def rdTimeArg (s : String) : Option TimeArg :=
+  match s.splitOn ":" with
+  | ["t", h, m, sec, us, tz, fold] => do
+    pure (.time (← rdNat h) (← rdNat m) (← rdNat sec) (← rdNat us) (← rdOpt rdInt tz) (← rdNat fold))
+  | ["b", h] => .octets <$> rdHex h
+  | _ => none
+
+def rdDateArg (s : String) : Option DateArg :=
+  match s.splitOn ":" with
+  | ["d", d, m, y] => do pure (.date (← rdNat d) (← rdNat m) (← rdNat y))
+  | ["dt", d, m, y, h, mi, sec, us, tz] => do
+    pure (.datetime (← rdNat d) (← rdNat m) (← rdNat y) (← rdNat h) (← rdNat mi) (← rdNat sec) (← rdNat us) (← rdOpt rdInt tz))
+  | ["b", h] => .octets <$> rdHex h
+  | _ => none
+
+def rdCoordArg (s : String) : Option CoordArg :=
+  match s.splitOn ":" with
+  | ["f", v] => .fixed4 <$> rdNat v
+  | ["i", v] => .int <$> rdNat v
+  | ["b", h] => .octets <$> rdHex h
+  | _ => none
+
+def rdSpeedArg (s : String) : Option SpeedArg :=
+  match s.splitOn ":" with
+  | ["f", v] => .float <$> rdDec v
+  | ["b", h] => .octets <$> rdHex h
+  | _ => none
+
+def rdDirArg (s : String) : Option DirArg :=
+  match s.splitOn ":" with
+  | ["i", v] => .int <$> rdNat v
+  | ["b", h] => .octets <$> rdHex h
+  | _ => none
+
+def rdGpsArgs : List String → Option GpsArgs
+  | [v, t, d, n, la, e, lo, sp, di] => do
+    pure ⟨← rdBool v, ← rdTimeArg t, ← rdDateArg d, ← rdBool n, ← rdCoordArg la, ← rdBool e, ← rdCoordArg lo,
+      ← rdSpeedArg sp, ← rdDirArg di⟩
   | _ => none
 
 open Dmr.Gen.Hytera in
@@ -249,6 +299,11 @@ def hyteraOp (op : String) (args : List String) : Option String :=
     match (TextArg.str cps).stored with
     | some b => some (hx b)
     | none => some "ERR UnicodeEncodeError"
+  | "arg.gps", a => do
+    let g ← rdGpsArgs a
+    match g.init with
+    | .error e => some (errS e)
+    | .ok r => some (hx r.asBytes ++ " " ++ toString r.asBytes.length)
   | "type.byte", [b] => do
     let b ← rdNat b
     let t := PktType.ofByte b
